@@ -107,7 +107,9 @@ impl Allocate<NonNull<u8>> for OneChunkAllocator {
                 "{} since there is no more chunk available.", msg);
         }
 
-        let available_size = self.size - (adjusted_start - self.start as usize);
+        let available_size = self
+            .size
+            .saturating_sub(adjusted_start - self.start as usize);
         if available_size <= layout.size() {
             fail!(from self, with AllocationError::OutOfMemory,
                 "{} due to insufficient available memory.", msg);
